@@ -92,6 +92,9 @@ def div_grid():
         "cmp": [Return(B("==", B("*", B("/", a, b), b), a))],
         "mixedfloat": [Return(B("/", a, F(2.0)))],
     }
+    # both operands literal (a constant folder must truncate like the VM does)
+    for x, y in ((-7, 2), (7, -2), (-7, -2), (9, -4), (-9, 4), (-1, 2), (1, -2), (-8, 3), (100, -7), (-100, 7), (6, 3), (-6, 3)):
+        forms["const:%d:%d" % (x, y)] = [Return(B("+", B("/", I(x), I(y)), B("*", B("/", B("-", I(x), I(1)), I(y)), I(1000))))]
     for k, body in forms.items():
         ret = FLOAT if k == "mixedfloat" else INT
         out.append(("intdiv:%s" % k, mod([fn("f", [(INT, "a"), (INT, "b")], ret, body)]), "f", inputs))
